@@ -45,6 +45,14 @@ HARNESS = {
 
 FIB_RULE = 'case = choice tape decoded into a history: 1-6 fibres (each one real protothread with 4 numbered segments), a time base (0, just below 2^32, just below 2^31, or random), <=40 external ops Run/RunAtomic/Kill/Next(dt); what a dispatched fibre does (0-3 inner calls of fibre_run / fibre_run_atomic / fibre_kill on any fibre, fibre_timeout(now+delta), then return yielded/waiting/exited/failed) is drawn from the tape at the moment of the dispatch. An abstract scheduler (FIFO run queue, arrival-ordered atomic requests with capacity 8, timer list ordered by 64-bit unwrapped due time then registration) runs in lock-step; the first divergence ends the case and is a failure if its kind belongs to this property. '
 
+# the same three isched harnesses built with -D__STDC_NO_ATOMICS__: include/librfn/atomic.h then maps every atomic_* to
+# the __atomic builtins itself (the fallback C07 anchors); the instrumentation still reports the order each one passes
+for _n in ('mqconc', 'ringconc', 'fibconc'):
+    _h = dict(HARNESS[_n])
+    _h['cflags'] = list(_h.get('cflags', [])) + ['-D__STDC_NO_ATOMICS__', '-DH_SUFFIX="_fb"']
+    _h['about'] = _h['about'] + ' - built with the __STDC_NO_ATOMICS__ fallback atomics'
+    HARNESS[_n + '_fb'] = _h
+
 PROPS = {
     'C10': dict(
         title='Message queue is a bounded FIFO of fixed buffers for every geometry',
@@ -495,6 +503,9 @@ PROPS = {
                  workers=2, common=dict(split=3, maxruns=1500000)),
             dict(h='fibconc', mode='rc', what='fibres, random, both modes', params=dict(oracle=7), quick=dict(cases=40000, len=500), thorough=dict(cases=2000000, len=500)),
             dict(h='conconc', mode='rc', what='console fed from interrupt / thread context, random', params=dict(oracle=7), quick=dict(cases=20000, len=300), thorough=dict(cases=1000000, len=300)),
+            dict(h='mqconc_fb', mode='rc', what='message queue, fallback atomics (atomic.h without <stdatomic.h>), random', params=dict(oracle=7), quick=dict(cases=20000, len=400), thorough=dict(cases=1000000, len=400)),
+            dict(h='ringconc_fb', mode='rc', what='ring buffer, fallback atomics, random', params=dict(oracle=7), quick=dict(cases=20000, len=300), thorough=dict(cases=1000000, len=300)),
+            dict(h='fibconc_fb', mode='rc', what='fibres, fallback atomics, random', params=dict(oracle=7), quick=dict(cases=20000, len=500), thorough=dict(cases=1000000, len=500)),
             dict(h='tsan', mode='script', what='real pthreads under the real ThreadSanitizer (8 processes x 20 s)', tiers=('thorough',), workers=8,
                  thorough=dict(params=dict(ms=20000), timeout=900)),
         ],
